@@ -84,7 +84,13 @@ def run_case(c):
         lab.write_release(d / "rel.rls", c["rows"], header=not c["use_names"], cols=cols)
         try:
             tk = TimeKeeper(start=lab.tstr(c["start"]), stop=lab.tstr(c["stop"]), dt=DT, time_reversal=c["rev"])
-            st = State(instance_variables=ivars, particle_variables=pvars)
+            # defaults for the extra columns: a value in the release row must win over the default
+            defaults = {}
+            if "weight" in c["extras"] and c["k"] % 2 == 0:
+                defaults["weight"] = 1.5
+            if "stage" in c["extras"] and c["k"] % 3 == 0:
+                defaults["stage"] = 9
+            st = State(instance_variables=ivars, particle_variables=pvars, default_values=defaults)
             modules = dict(time=tk, grid=StubGrid(), state=st)
             kw = dict(release_file=str(d / "rel.rls"), continuous=c["continuous"])
             if c["continuous"]:
